@@ -1,7 +1,7 @@
 //! parser cases: spec -> impl replay of the histories enumerated by MC_Parser
 
 use crate::events::observe;
-use crate::proj::{admits, dom, proj, ty_of, unordered, Node};
+use crate::proj::{admits, dom, prefix_clash, proj, ty_of, unordered, Node};
 use crate::run::*;
 use crate::util::*;
 use crate::xmlser::{serialize, ReaderCfg};
@@ -190,13 +190,15 @@ pub fn record_schema(a: &Args) {
                 Outcome::Err { kind, position, debug, .. } => json!({"st": "err", "kind": kind, "position": position, "debug": debug}),
                 Outcome::Panic => json!({"st": "panic"}),
             };
+            let clash = dom(&obs.events, &obs.ws_text).iter().any(prefix_clash);
             o.line(&json!({"ev": "Call", "op": op, "events": obs.events, "result": result, "reader_error": err_json(&obs),
-                           "doc": String::from_utf8_lossy(&bytes), "hex": hex(&bytes)}));
+                           "prefix_clash": clash, "doc": String::from_utf8_lossy(&bytes), "hex": hex(&bytes)}));
             calls += 1;
             session_docs.push(String::from_utf8_lossy(&bytes).into_owned());
         }
         // the rendering of the parsed tree (with whatever text content the documents had) for RenderTrace
-        if let (Some(t), Some(tree)) = (renders.as_mut(), sess.tree.as_ref()) {
+        // (names outside the model alphabet — damaged documents — cannot be judged by the renderer specification)
+        if let (Some(t), Some(tree)) = (renders.as_mut(), sess.tree.as_ref().filter(|t| crate::render::in_alphabet(&t.verif_view()))) {
             let opts = vec![xml_schema_generator::Options::quick_xml_de(), {
                 let mut s2 = xml_schema_generator::Options::serde_xml_rs();
                 s2.sort = xml_schema_generator::SortBy::XmlName;
@@ -229,8 +231,9 @@ pub fn docs_trace(a: &Args) {
             Outcome::Err { kind, position, debug, .. } => json!({"st": "err", "kind": kind, "position": position, "debug": debug}),
             Outcome::Panic => json!({"st": "panic"}),
         };
+        let clash = dom(&obs.events, &obs.ws_text).iter().any(prefix_clash);
         o.line(&json!({"ev": "Call", "op": op, "events": obs.events, "result": result, "reader_error": err_json(&obs),
-                       "doc": String::from_utf8_lossy(&bytes), "hex": hex(&bytes)}));
+                       "prefix_clash": clash, "doc": String::from_utf8_lossy(&bytes), "hex": hex(&bytes)}));
     }
     let lines = o.finish();
     println!("{}", json!({"kind": "docs-trace", "events": lines}));
